@@ -238,6 +238,80 @@ def prefix_lookup(model, key):
     return None
 
 
+_BUNDLED_RULES = []
+
+
+def bundled_ruleset():
+    """Independent PSL reference over the repository's bundled rule list (data
+    file only; none of the repository's suffix code)."""
+    if not _BUNDLED_RULES:
+        import os
+
+        import ural
+        from sim import psl
+
+        path = os.path.join(os.path.dirname(os.path.abspath(ural.__file__)), "tld_data.py")
+        ns = {}
+        with open(path, "rb") as f:
+            exec(compile(f.read().decode("utf-8"), path, "exec"), ns)
+        _BUNDLED_RULES.append(psl.RuleSet(list(ns["PUBLIC_SUFFIXES"]) + list(ns["PRIVATE_SUFFIXES"])))
+    return _BUNDLED_RULES[0]
+
+
+def parse_simple(url):
+    """Components of a universe URL, by the standard library only.  Returns None
+    for URLs the by-construction hierarchy does not speak about."""
+    from urllib.parse import urlsplit
+
+    full = url if "://" in url else "http://" + url
+    try:
+        sp = urlsplit(full)
+        host = sp.hostname
+        port = sp.port
+    except ValueError:
+        return None
+    if not host or host != host.lower() or any(ord(ch) > 127 for ch in host) or "xn--" in host:
+        return None
+    if host == "localhost" or host.replace(".", "").isdigit():
+        return None
+    netloc_host = sp.netloc.rsplit("@", 1)[-1].split(":")[0]
+    if netloc_host != host:
+        return None  # upper-case spelling in the URL itself
+    return {
+        "scheme": sp.scheme,
+        "labels": tuple(host.split(".")),
+        "port": port,
+        "auth": "@" in sp.netloc,
+        "segs": [x for x in sp.path.split("/")[1:] if x != ""],
+        "query": sp.query,
+        "fragment": sp.fragment,
+    }
+
+
+def below_by_construction(u, v, suffix_aware, rules):
+    """True when, whatever the stem function does internally, URL v lies at or
+    under URL u in the LRU hierarchy: same scheme, no port, u has no auth /
+    query / fragment, host(v) is host(u) or a subdomain of it (not crossing the
+    public-suffix boundary when suffix-aware) and then any path; or same host
+    and path(u) a segment-wise prefix of path(v)."""
+    if u["scheme"] != v["scheme"] or u["port"] is not None or v["port"] is not None:
+        return False
+    if u["auth"] or u["query"] or u["fragment"]:
+        return False
+    lu, lv = u["labels"], v["labels"]
+    if lv[len(lv) - len(lu) :] != lu or len(lu) > len(lv):
+        return False
+    if suffix_aware:
+        ku, kv = rules.suffix_length(lu), rules.suffix_length(lv)
+        if ku != kv:
+            return False
+        if ku is not None and lu[len(lu) - ku :] != lv[len(lv) - kv :]:
+            return False
+    if len(lv) > len(lu):
+        return not u["segs"]
+    return v["segs"][: len(u["segs"])] == u["segs"]
+
+
 class Run(object):
     def __init__(self, config, stats, known):
         import ural.lru as lru
@@ -275,6 +349,20 @@ class Run(object):
                 s = self.url_fn(u, **self.kwargs)
                 self.groups.setdefault(s, []).append(u)
         self.group_list = [g for _, g in sorted(self.groups.items()) if len(g) > 1]
+        # by-construction hierarchy (plain LRUTrie only: the variants rewrite
+        # hosts and paths before stemming), independent of the stem functions
+        self.below = {}
+        self.stored_urls = {}
+        self.none_stored = False
+        if cls == "LRUTrie":
+            rules = bundled_ruleset() if self.suffix_aware else None
+            parsed = [(u, parse_simple(u)) for u in self.universe]
+            for u, pu in parsed:
+                if pu is None:
+                    continue
+                vs = [v for v, pv in parsed if pv is not None and below_by_construction(pu, pv, self.suffix_aware, rules)]
+                if vs:
+                    self.below[u] = vs
         stats.probe("cls_" + cls)
         if self.suffix_aware:
             stats.probe("suffix_aware")
@@ -329,6 +417,15 @@ class Run(object):
                     self.stats.checks += 1
                     if not same(results[u], first):
                         self.fail("same_key", op, {u: r(results[u])}, {group[0]: r(first)}, {"string": self.url_fn(u, **self.kwargs)})
+        # hierarchy law: a URL at or under a stored URL always finds something
+        if self.stored_urls and not self.none_stored:
+            for u in self.stored_urls:
+                for v in self.below[u]:
+                    got = results[v] if v in results else self.trie.match(v)
+                    self.stats.checks += 1
+                    if got is None:
+                        self.fail("hierarchy", op, None, "the value stored for %r or for a longer prefix" % (u,), {"stored": u, "queried": v})
+            self.stats.probe("hierarchy_law_checked")
         self.expect("len", op, len(self.trie), len(self.model))
         if do_iter:
             got = sorted(r(v) for v in self.trie)
@@ -362,6 +459,8 @@ class Run(object):
             if key is None:
                 key = self.key_of(url)
             value = dec_value(ev["val"])
+            if value is None:
+                self.none_stored = True
             self.mutation_begins()
             self.note_set(key)
             raw = self.stem_fn(url, suffix_aware=self.suffix_aware, **(self.kwargs if self.cfg["cls"] != "LRUTrie" else {}))
@@ -375,6 +474,8 @@ class Run(object):
             else:
                 self.trie.set(url, value)
             self.model[key] = value
+            if url in self.below and value is not None:
+                self.stored_urls[url] = True
             stats.event("%s|set|%s|%s|%s" % (ev.get("c"), r(url), ev.get("via"), canon(ev["val"])))
             stats.transition(before + "|set|" + repr(key))
             # storing one URL and querying any URL with the same string hits
@@ -392,6 +493,8 @@ class Run(object):
             stems = list(ev["stems"])
             key = clean(stems)
             value = dec_value(ev["val"])
+            if value is None:
+                self.none_stored = True
             self.mutation_begins()
             self.note_set(key)
             if "p:" in stems[:-1]:
@@ -596,6 +699,7 @@ PROBES = [
     "match_lru_str",
     "match_lru_list",
     "same_string_class_size_ge2_hit",
+    "hierarchy_law_checked",
     "suffix_aware",
     "suffix_aware_multilabel_suffix",
     "set_unparseable_raised",
